@@ -18,6 +18,14 @@ PROPERTIES = {
                       "allow_unsupported": ["non-ASCII byte"]}],
         "bounds": {}, "outside": [], "assumptions": [],
     },
+    "C06": {
+        "level": "model_checking",
+        "quick": [{"match": "VerifH_c06_.*", "timeout": 900, "shards": {"VerifH_c06_l2": 12}, "sharddepth": 12,
+                   "allow_unsupported": ["non-ASCII", "symbolic allocation size", "ParseFloat", "opaque"]}],
+        "thorough": [{"match": "VerifH_c06_.*", "timeout": 3000, "shards": {"VerifH_c06_l2": 14}, "sharddepth": 12,
+                   "allow_unsupported": ["non-ASCII", "symbolic allocation size", "ParseFloat", "opaque"]}],
+        "bounds": {}, "outside": [], "assumptions": [],
+    },
     "C09": {
         "level": "model_checking",
         "quick": [{"match": "VerifH_c09_.*", "timeout": 600, "shards": 4}],
